@@ -950,4 +950,280 @@ theorem cstr_ne_zero (s : List Nat) : ∀ c ∈ cstr s, c ≠ 0 := by
       · exact ha
       · exact ih c (by simpa [cstr] using hc)
 
+/-! ### pton6: completeness w.r.t. the grammar -/
+
+theorem hexVal_colon : hexVal 58 = none := by decide
+theorem hexVal_dot : hexVal 46 = none := by decide
+
+/-- reading hex digits -/
+theorem pton6Loop_digits (t : List Nat) : ∀ (rest ct : List Nat) (seen val : Nat) (tp : List Nat) (cp : Option Nat),
+    (∀ c ∈ t, (hexVal c).isSome) → seen + t.length ≤ 4 →
+    pton6Loop (t ++ rest) ct seen val tp cp =
+      pton6Loop rest ct (seen + t.length) (t.foldl (fun a c => a * 16 + (hexVal c).getD 0) val) tp cp := by
+  induction t with
+  | nil => intros; simp
+  | cons c t ih =>
+    intro rest ct seen val tp cp hh hl
+    have hc := hh c (by simp)
+    obtain ⟨d, hd⟩ := Option.isSome_iff_exists.1 hc
+    rw [List.cons_append, pton6Loop]
+    simp only [hd]
+    rw [if_neg (by simp at hl; omega), ih rest ct (seen + 1) _ tp cp (fun x hx => hh x (by simp [hx])) (by simp at hl; omega)]
+    simp [hd]; congr 1; omega
+
+theorem pton6Loop_group (t : List Nat) (w : Nat) (h : IsH16 t w) (rest ct tp : List Nat) (cp : Option Nat) :
+    pton6Loop (t ++ rest) ct 0 0 tp cp = pton6Loop rest ct t.length w tp cp := by
+  obtain ⟨_, hl, hh, hw⟩ := h
+  rw [pton6Loop_digits t rest ct 0 0 tp cp hh (by omega)]
+  simp [← hw, hexFold]
+
+/-- ':' after a group, more text follows -/
+theorem pton6Loop_colon (rest ct : List Nat) (seen val : Nat) (tp : List Nat) (cp : Option Nat)
+    (hs : seen ≠ 0) (hr : rest ≠ []) (hroom : tp.length + 2 ≤ 16) :
+    pton6Loop (58 :: rest) ct seen val tp cp = pton6Loop rest rest 0 0 (tp ++ wbytes val) cp := by
+  rw [pton6Loop]
+  simp only [hexVal_colon]
+  rw [if_pos trivial, if_neg hs, if_neg hr, if_neg (by omega)]
+
+/-- the second ':' of "::" -/
+theorem pton6Loop_dcolon (rest ct : List Nat) (val : Nat) (tp : List Nat) :
+    pton6Loop (58 :: rest) ct 0 val tp none = pton6Loop rest rest 0 val tp (some tp.length) := by
+  rw [pton6Loop]
+  simp [hexVal_colon]
+
+theorem isH16_ne_nil {t : List Nat} {w : Nat} (h : IsH16 t w) : t ≠ [] := h.1
+
+theorem groupSeq_ne_nil {s bs : List Nat} (h : GroupSeq s bs) : s ≠ [] := by
+  cases h with
+  | one h => exact h.1
+  | quad h =>
+    obtain ⟨a, b, c, d, _, _, _, _, _, rfl⟩ := (dottedQuad_iff _ _).1 h
+    intro h0; have := (fmt4_len [a, b, c, d]).1; rw [h0] at this; simp at this
+  | cons h _ => simp
+
+theorem fmtU8_hex (n : Nat) (h : n ≤ 255) : ∀ c ∈ fmtU8 n, (hexVal c).isSome := by
+  intro c hc
+  have := fmtU8_digits n (by omega) c hc
+  simp [hexVal, this]
+
+/-- a trailing dotted quad, read from the start of its token -/
+theorem pton6Loop_quad (q v tp : List Nat) (cp : Option Nat) (h : DottedQuad q v) (hroom : tp.length + 4 ≤ 16) :
+    pton6Loop q q 0 0 tp cp = pton6Tail (tp ++ v) cp := by
+  have hp : pton4 q = some v := (pton4_iff_fmt4 q v).2 ((dottedQuad_iff q v).1 h)
+  obtain ⟨a, b, c, d, ha, hb, hc, hd, hv, hq⟩ := (dottedQuad_iff q v).1 h
+  have hl := fmtU8_len a
+  have e : q = fmtU8 a ++ 46 :: (fmtU8 b ++ 46 :: (fmtU8 c ++ 46 :: fmtU8 d)) := by
+    rw [hq]; simp [fmt4]
+  conv => lhs; arg 1; rw [e]
+  rw [pton6Loop_digits (fmtU8 a) _ q 0 0 tp cp (fmtU8_hex a ha) (by omega), pton6Loop]
+  simp only [hexVal_dot]
+  rw [if_neg (by decide), if_pos ⟨trivial, hroom⟩]
+  simp only [hp, pton6Finish]
+  simp
+
+/-- a group sequence read from the start of a token runs to the end of input -/
+theorem pton6Loop_groupSeq (s bs : List Nat) (h : GroupSeq s bs) :
+    ∀ (tp : List Nat) (cp : Option Nat), tp.length + bs.length ≤ 16 →
+    pton6Loop s s 0 0 tp cp = pton6Tail (tp ++ bs) cp := by
+  induction h with
+  | one h =>
+    rename_i t w
+    intro tp cp hroom
+    have := pton6Loop_group t w h [] t tp cp
+    rw [List.append_nil] at this
+    rw [this]
+    simp only [pton6Loop, pton6Finish]
+    have h0 : t.length ≠ 0 := by intro h0; exact h.1 (List.eq_nil_of_length_eq_zero h0)
+    rw [if_pos h0, if_neg (by simp [wbytes_len] at hroom; omega)]
+  | quad h =>
+    rename_i t v
+    intro tp cp hroom
+    exact pton6Loop_quad t v tp cp h (by have := (dottedQuad_len _ _ h).2; omega)
+  | cons h hs ih =>
+    rename_i t w s' bs'
+    intro tp cp hroom
+    have h0 : t.length ≠ 0 := by intro h0; exact h.1 (List.eq_nil_of_length_eq_zero h0)
+    simp [wbytes_len] at hroom
+    rw [pton6Loop_group t w h (58 :: s') _ tp cp,
+      pton6Loop_colon s' _ t.length w tp cp h0 (groupSeq_ne_nil hs) (by omega),
+      ih (tp ++ wbytes w) cp (by simp [wbytes_len]; omega)]
+    simp
+
+/-- a hex sequence followed by "::" -/
+theorem pton6Loop_hexSeq (l lb : List Nat) (h : HexSeq l lb) :
+    ∀ (r tp : List Nat), tp.length + lb.length ≤ 16 →
+    pton6Loop (l ++ 58 :: 58 :: r) (l ++ 58 :: 58 :: r) 0 0 tp none =
+      pton6Loop r r 0 0 (tp ++ lb) (some (tp ++ lb).length) := by
+  induction h with
+  | one h =>
+    rename_i t w
+    intro r tp hroom
+    have h0 : t.length ≠ 0 := by intro h0; exact h.1 (List.eq_nil_of_length_eq_zero h0)
+    simp [wbytes_len] at hroom
+    rw [pton6Loop_group t w h _ _ tp none,
+      pton6Loop_colon _ _ t.length w tp none h0 (by simp) (by omega), pton6Loop_dcolon]
+  | cons h hs ih =>
+    rename_i t w s' bs'
+    intro r tp hroom
+    have h0 : t.length ≠ 0 := by intro h0; exact h.1 (List.eq_nil_of_length_eq_zero h0)
+    simp [wbytes_len] at hroom
+    have e : t ++ 58 :: s' ++ 58 :: 58 :: r = t ++ 58 :: (s' ++ 58 :: 58 :: r) := by simp
+    rw [e, pton6Loop_group t w h _ _ tp none,
+      pton6Loop_colon _ _ t.length w tp none h0 (by simp) (by omega),
+      ih r (tp ++ wbytes w) (by simp [wbytes_len]; omega)]
+    simp
+
+theorem isH16_head {t : List Nat} {w : Nat} (h : IsH16 t w) : ∃ c r, t = c :: r ∧ c ≠ 58 := by
+  obtain ⟨hne, _, hh, _⟩ := h
+  cases t with
+  | nil => exact absurd rfl hne
+  | cons c r =>
+    refine ⟨c, r, rfl, ?_⟩
+    intro hc; have := hh c (by simp); rw [hc] at this; simp [hexVal_colon] at this
+
+theorem hexSeq_head {s bs : List Nat} (h : HexSeq s bs) : ∃ c r, s = c :: r ∧ c ≠ 58 := by
+  cases h with
+  | one h => exact isH16_head h
+  | cons h _ =>
+    obtain ⟨c, r, rfl, hc⟩ := isH16_head h
+    exact ⟨c, _, rfl, hc⟩
+
+theorem groupSeq_head {s bs : List Nat} (h : GroupSeq s bs) : ∃ c r, s = c :: r ∧ c ≠ 58 := by
+  cases h with
+  | one h => exact isH16_head h
+  | quad h =>
+    obtain ⟨a, b, c, d, ha, _, _, _, _, rfl⟩ := (dottedQuad_iff _ _).1 h
+    have hd := fmtU8_digits a (by omega)
+    have hl := fmtU8_len a
+    cases hf : fmtU8 a with
+    | nil => rw [hf] at hl; simp at hl
+    | cons x r =>
+      refine ⟨x, r ++ 46 :: (fmtU8 b ++ 46 :: (fmtU8 c ++ 46 :: fmtU8 d)), by simp [fmt4, hf], ?_⟩
+      have := hd x (by simp [hf]); omega
+  | cons h _ =>
+    obtain ⟨c, r, rfl, hc⟩ := isH16_head h
+    exact ⟨c, _, rfl, hc⟩
+
+theorem pton6_of_head (c : Nat) (r : List Nat) (hc : c ≠ 58) :
+    pton6 (c :: r) = pton6Loop (c :: r) (c :: r) 0 0 [] none := by
+  unfold pton6
+  split
+  · rename_i rest heq
+    simp at heq; exact absurd heq.1 hc
+  · rfl
+
+/-- the part after "::" -/
+theorem pton6Loop_rpart (lb r rb : List Nat) (hr : r = [] ∧ rb = [] ∨ GroupSeq r rb)
+    (hlen : lb.length + rb.length < 16) :
+    pton6Loop r r 0 0 lb (some lb.length) =
+      some (lb ++ List.replicate (16 - (lb.length + rb.length)) 0 ++ rb) := by
+  rcases hr with ⟨rfl, rfl⟩ | hr
+  · simp only [pton6Loop, pton6Finish, pton6Tail]
+    simp at hlen
+    simp [shiftLoop, Nat.ne_of_lt hlen]
+  · rw [pton6Loop_groupSeq r rb hr lb _ (by omega)]
+    simp only [pton6Tail]
+    rw [if_neg (by simp; omega)]
+    simp only [List.length_append, Nat.add_sub_cancel_left]
+    rw [shiftLoop_eq lb rb hlen]
+
+/-- completeness: every RFC 4291 text of the grammar is accepted, with the grammar's value -/
+theorem pton6_complete (s v : List Nat) (h : Ipv6Text s v) : pton6 s = some v := by
+  cases h with
+  | full hg hl =>
+    obtain ⟨c, r, rfl, hc⟩ := groupSeq_head hg
+    rw [pton6_of_head c r hc, pton6Loop_groupSeq _ _ hg [] none (by simp; omega)]
+    simp [pton6Tail, hl]
+  | compressed hl hr hlen =>
+    rename_i l lb r rb
+    rcases hl with ⟨rfl, rfl⟩ | hl
+    · have : pton6 ([] ++ 58 :: 58 :: r) = pton6Loop (58 :: r) (58 :: r) 0 0 [] none := by
+        simp [pton6]
+      rw [this, pton6Loop_dcolon]
+      have := pton6Loop_rpart [] r rb hr hlen
+      simpa using this
+    · obtain ⟨c, t, rfl, hc⟩ := hexSeq_head hl
+      rw [List.cons_append, pton6_of_head c _ hc, ← List.cons_append, pton6Loop_hexSeq _ _ hl r [] (by simp; omega)]
+      have := pton6Loop_rpart lb r rb hr hlen
+      simpa using this
+
+theorem pton6_iff (s v : List Nat) : pton6 s = some v ↔ Ipv6Text s v :=
+  ⟨pton6_sound s v, pton6_complete s v⟩
+
+theorem wbytes_lt (w : Nat) : ∀ b ∈ wbytes w, b < 256 := by
+  intro b hb; simp [wbytes] at hb; rcases hb with rfl | rfl <;> omega
+
+theorem hexSeq_bytes (s bs : List Nat) (h : HexSeq s bs) : ∀ b ∈ bs, b < 256 := by
+  induction h with
+  | one h => exact wbytes_lt _
+  | cons h _ ih =>
+    intro b hb; simp only [List.mem_append] at hb
+    rcases hb with hb | hb
+    · exact wbytes_lt _ b hb
+    · exact ih b hb
+
+theorem groupSeq_bytes (s bs : List Nat) (h : GroupSeq s bs) : ∀ b ∈ bs, b < 256 := by
+  induction h with
+  | one h => exact wbytes_lt _
+  | quad h =>
+    obtain ⟨a, b, c, d, ha, hb, hc, hd, rfl, _⟩ := (dottedQuad_iff _ _).1 h
+    intro x hx; simp at hx; rcases hx with rfl | rfl | rfl | rfl <;> omega
+  | cons h _ ih =>
+    intro b hb; simp only [List.mem_append] at hb
+    rcases hb with hb | hb
+    · exact wbytes_lt _ b hb
+    · exact ih b hb
+
+/-- the value of any IPv6 text is 16 bytes -/
+theorem ipv6Text_value (s v : List Nat) (h : Ipv6Text s v) : v.length = 16 ∧ ∀ b ∈ v, b < 256 := by
+  cases h with
+  | full hg hl => exact ⟨hl, groupSeq_bytes _ _ hg⟩
+  | compressed hl hr hlen =>
+    rename_i l lb r rb
+    refine ⟨by simp; omega, ?_⟩
+    intro b hb
+    simp only [List.mem_append, List.mem_replicate] at hb
+    rcases hb with (hb | hb) | hb
+    · rcases hl with ⟨_, rfl⟩ | hl
+      · simp at hb
+      · exact hexSeq_bytes _ _ hl b hb
+    · omega
+    · rcases hr with ⟨_, rfl⟩ | hr
+      · simp at hb
+      · exact groupSeq_bytes _ _ hr b hb
+
+/-! ### towards the ntop6 → pton6 round trip -/
+
+theorem hexVal_hexDigit (d : Nat) (h : d < 16) : hexVal (hexDigit d) = some d := by
+  unfold hexDigit hexVal
+  by_cases h10 : d < 10
+  · rw [if_pos h10, if_pos (by omega)]; congr 1; omega
+  · rw [if_neg h10, if_neg (by omega), if_pos (by omega)]; congr 1; omega
+
+theorem fmtX16_isH16 (w : Nat) (h : w < 65536) : IsH16 (fmtX16 w) w := by
+  have hl := fmtX16_len w
+  refine ⟨by intro h0; rw [h0] at hl; simp at hl, hl.2, ?_, ?_⟩
+  · intro c hc
+    unfold fmtX16 at hc
+    (repeat' split at hc) <;> simp at hc
+    · rw [hc, hexVal_hexDigit _ (by omega)]; rfl
+    · rcases hc with rfl | rfl <;> rw [hexVal_hexDigit _ (by omega)] <;> rfl
+    · rcases hc with rfl | rfl | rfl <;> rw [hexVal_hexDigit _ (by omega)] <;> rfl
+    · rcases hc with rfl | rfl | rfl | rfl <;> rw [hexVal_hexDigit _ (by omega)] <;> rfl
+  · have m0 : w % 16 < 16 := by omega
+    by_cases h1 : w < 16
+    · simp [fmtX16, h1, hexFold, hexVal_hexDigit _ h1]
+    by_cases h2 : w < 256
+    · have a1 : w / 16 < 16 := by omega
+      simp [fmtX16, h1, h2, hexFold, hexVal_hexDigit _ a1, hexVal_hexDigit _ m0]; omega
+    by_cases h3 : w < 4096
+    · have a1 : w / 256 < 16 := by omega
+      have a2 : w / 16 % 16 < 16 := by omega
+      simp [fmtX16, h1, h2, h3, hexFold, hexVal_hexDigit _ a1, hexVal_hexDigit _ a2, hexVal_hexDigit _ m0]; omega
+    · have a1 : w / 4096 < 16 := by omega
+      have a2 : w / 256 % 16 < 16 := by omega
+      have a3 : w / 16 % 16 < 16 := by omega
+      simp [fmtX16, h1, h2, h3, hexFold, hexVal_hexDigit _ a1, hexVal_hexDigit _ a2, hexVal_hexDigit _ a3,
+        hexVal_hexDigit _ m0]; omega
+
 end UvModel.Inet
